@@ -126,7 +126,7 @@ def check(tier, replay_path=None):
             'for the action bodies of the real models (tests/test_bridgepoint/test_interpret.py: 26 bodies) the tree is the one the '
             'parser makes of the original text; the optional words bridge / transform and the specification name in front of a '
             'constant are not compared there (the originals leave them out, the generator writes them)',
-            'port messages, signals, polymorphic events and events of external entities are not in this corpus (no ports are '
+            'port messages, signals, non-local polymorphic events and events of external entities are not in this corpus (no ports are '
             'synthesised)',
             'in a state or transition action the null PP_Id of a V_EPR instance (data item of a state machine event, no property parameter) is '
             'not counted as a uniqueness violation: the ooaofooa schema makes PP_Id part of the identifier of V_EPR',
